@@ -100,6 +100,13 @@ func runC13(p *Program, r *Result) {
 		}
 	}
 
+	r.Rule("R13.6", "a reader that fails leaves no decoded data pending (a failed stream keeps failing)", 2)
+	for _, spec := range [][3]string{{pkgStream, "Reader", "Read"}, {pkgArmor, "armoredReader", "Read"}} {
+		if f := r.anchor(spec[0], spec[1], spec[2]); f != nil {
+			checkNoPendingDataOnError(p, r, f, 0)
+		}
+	}
+
 	r.Rule("R13.3", "a source error never turns into a clean end of stream", 4)
 	{
 		// productions of io.EOF in the library
@@ -166,4 +173,91 @@ func runC13(p *Program, r *Result) {
 			}
 		}
 	}
+}
+
+// checkNoPendingDataOnError (R13.6, shared with C08): the readers serve
+// pending decoded data before they look at the sticky error. A Read that
+// returns an error must therefore not leave data pending: on every path to an
+// error return, no store of a possibly non-empty slice to the `unread` field
+// may have happened since entry. Otherwise the caller's next Read gets bytes
+// with a nil error after the stream has already failed (and, if the store was
+// the pre-decode `r.unread = r.buf[:]`, bytes that are not plaintext at all).
+func checkNoPendingDataOnError(p *Program, r *Result, fn *ssa.Function, depth int) bool {
+	tb := p.TB(fn)
+	ei := errorResultIndex(fn.Signature)
+	if ei < 0 {
+		return true
+	}
+	paths, ok := p.EnumPaths(fn.Blocks[0])
+	if !ok {
+		r.Unk(fn.String(), "pending-on-error", "", "too many paths")
+		return false
+	}
+	clean := true
+	reported := map[ssa.Instruction]bool{}
+	for _, pa := range paths {
+		if pa.End != "return" {
+			continue
+		}
+		ret := pa.Last.(*ssa.Return)
+		ev := pa.Resolve(resultsOf(ret)[ei])
+		if isNilConst(ev) {
+			continue
+		}
+		// the entry path that serves pending data and the sticky-error return are fine
+		atoms := tb.pathAtoms(pa)
+		var dirty ssa.Instruction
+		for _, in := range pa.Instrs() {
+			switch x := in.(type) {
+			case *ssa.Store:
+				fa, isFA := x.Addr.(*ssa.FieldAddr)
+				if !isFA || fieldName(fa.X.Type(), fa.Field) != "unread" {
+					continue
+				}
+				if emptySliceValue(x.Val) {
+					dirty = nil
+				} else {
+					dirty = in
+				}
+			case *ssa.Call:
+				callee := staticCallee(&x.Call)
+				if callee == nil || callee.Blocks == nil || depth > 0 {
+					continue
+				}
+				if eff := p.EffectsOf(callee); eff != nil && eff.AllFields[structTypeName(fn.Params[0].Type())+".unread"] {
+					// the callee stores unread: fine if it does so only on its success paths
+					// and this path took its error edge
+					if _, failed := errFactFor(atoms, x, false); failed && checkNoPendingDataOnError(p, NewResult("", p), callee, depth+1) {
+						continue
+					}
+					if _, okc := errFactFor(atoms, x, true); okc {
+						dirty = in
+					}
+				}
+			}
+		}
+		if dirty != nil {
+			clean = false
+			if !reported[ret] {
+				reported[ret] = true
+				r.Bad(fn.String(), "pending-on-error#"+itoa(retIndex(fn, ret)), r.pos(ret), "this error return is reachable after `unread` was set at "+r.pos(dirty)+" (path "+pa.String()+"): the next Read would hand out those bytes with a nil error although the stream has failed")
+			}
+		}
+	}
+	if clean {
+		r.OK(fn.String(), "pending-on-error", "", "no error return is reachable with data left pending in `unread`")
+	}
+	return clean
+}
+
+func emptySliceValue(v ssa.Value) bool {
+	if isNilConst(v) {
+		return true
+	}
+	if sl, ok := v.(*ssa.Slice); ok && sl.High != nil {
+		if k, ok := constInt(sl.High); ok && k == 0 {
+			return true
+		}
+	}
+	return false
 }
